@@ -28,7 +28,7 @@ TAL_ORDER = ["TAL_DEFINE", "TAL_CONDITION", "TAL_REPEAT", "TAL_CONTENT", "TAL_RE
 PARSE_ONLY = {"TAL_REPLACE", "METAL_FILL_SLOT", "METAL_DEFINE_MACRO"}
 
 
-def saved_names(prog, interp, m):
+def saved_names(prog, interp, m, _depth=0):
     """Names of the self attributes a push/pop method saves or restores (tuple of attributes, or a constant name table
     driven by getattr/setattr)."""
     from ..paths import NOCONST, const_value
@@ -47,6 +47,21 @@ def saved_names(prog, interp, m):
             v = const_value(prog, n.iter.args[0], m, interp)
             if v is not NOCONST and isinstance(v, tuple):
                 out |= {x for x in v if isinstance(x, str)}
+        # a NamedTuple of the saved state: NT(f=self.f, ...) / a helper handed the class that collects its _fields;
+        # one-return helpers of the class (self.currentScope()) are followed
+        if isinstance(n, ast.Call):
+            from ..paths import _namedtuple_type
+
+            cands = [n.func] + list(n.args)
+            for c in cands:
+                d = dotted(c)
+                res = prog.resolve_dotted(m.module, d) if d and not d.startswith("self") else None
+                if res and res[0] == "class" and _namedtuple_type(res[1]) is not None:
+                    out |= set(_namedtuple_type(res[1])._fields)
+            if isinstance(n.func, ast.Attribute) and dotted(n.func.value) == "self" and _depth < 2:
+                h = prog.resolve_method(interp, n.func.attr)
+                if h is not None and h is not m and len(h.node.body) <= 12 and n.func.attr not in ("pushProgram", "popProgram", "execute", "cleanState"):
+                    out |= saved_names(prog, interp, h, _depth + 1)
     return out
 
 
@@ -321,24 +336,96 @@ def check(ctx, rep):
     rep.add("R17c", "scope opened iff an end symbol is allocated", not problems, ctx.where(at) if at else mod.relpath, "; ".join(sorted(set(problems))), key="R17c|scope")
 
     # ------------------------------------------------------------------ R17d
+    from ..paths import _namedtuple_type
+    from ..structure import resolve_value as _rv
+
+    def _nt_class(expr, fn):
+        """The repository NamedTuple class an expression names (None otherwise)."""
+        d = dotted(expr)
+        if not d:
+            return None
+        res = prog.resolve_dotted(fn.module, d)
+        if res and res[0] == "class" and _namedtuple_type(res[1]) is not None:
+            return res[1]
+        return None
+
+    def _as_tuple(a, fn, depth=0):
+        """A saved-state expression as a tuple of the expressions saved, in field order:
+        a tuple literal; NT(f=...)/NT(...); a one-return helper returning one of these; a helper that collects
+        getattr(self, f) for f in NT._fields (then the fields are self.<f>)."""
+        if depth > 3 or a is None:
+            return None
+        if isinstance(a, ast.Name):
+            for s_ in ast.walk(fn.node):
+                if isinstance(s_, ast.Assign) and any(isinstance(t, ast.Name) and t.id == a.id for t in s_.targets):
+                    return _as_tuple(s_.value, fn, depth + 1)
+            return None
+        if isinstance(a, ast.Tuple):
+            return a
+        if isinstance(a, ast.Call):
+            C = _nt_class(a.func, fn)
+            if C is not None:
+                fields = list(_namedtuple_type(C)._fields)
+                vals = dict(zip(fields, a.args))
+                vals.update({k.arg: k.value for k in a.keywords if k.arg})
+                if all(f in vals for f in fields):
+                    return ast.Tuple(elts=[vals[f] for f in fields], ctx=ast.Load())
+            if isinstance(a.func, ast.Attribute) and dotted(a.func.value) == "self":
+                h = interp.methods.get(a.func.attr) or prog.resolve_method(interp, a.func.attr)
+                if h is not None:
+                    # reflection over the fields of the class it is handed
+                    if any(isinstance(x, ast.Attribute) and x.attr == "_fields" for x in ast.walk(h.node)):
+                        for arg in list(a.args) + [k.value for k in a.keywords]:
+                            C = _nt_class(arg, fn)
+                            if C is not None:
+                                return ast.Tuple(elts=[ast.Attribute(value=ast.Name(id="self", ctx=ast.Load()), attr=f, ctx=ast.Load())
+                                                       for f in _namedtuple_type(C)._fields], ctx=ast.Load())
+                    rets = [r for r in ast.walk(h.node) if isinstance(r, ast.Return) and r.value is not None]
+                    if len(rets) == 1:
+                        return _as_tuple(rets[0].value, h, depth + 1)
+        return None
+
     def pushed_fields(m, stack):
         for n in ast.walk(m.node):
             if isinstance(n, ast.Call) and isinstance(n.func, ast.Attribute) and n.func.attr == "append" and norm(n.func.value) == stack and n.args:
-                a = n.args[0]
-                if isinstance(a, ast.Name):
-                    for s in ast.walk(m.node):
-                        if isinstance(s, ast.Assign) and any(isinstance(t, ast.Name) and t.id == a.id for t in s.targets):
-                            a = s.value
-                if isinstance(a, ast.Tuple):
-                    return a
+                t = _as_tuple(n.args[0], m)
+                if t is not None:
+                    return t
+        return None
+
+    def _restore_targets(src_is, fn, depth=0):
+        """Targets a saved state is unpacked into, in order; src_is(expr) tells the saved-state expression."""
+        for n in ast.walk(fn.node):
+            if isinstance(n, ast.Assign) and src_is(n.value) and isinstance(n.targets[0], ast.Tuple):
+                return n.targets[0]
+        if depth > 2:
+            return None
+        # handed to a helper of the class, or held in a local first
+        for n in ast.walk(fn.node):
+            if isinstance(n, ast.Assign) and src_is(n.value) and isinstance(n.targets[0], ast.Name):
+                nm = n.targets[0].id
+                r = _restore_targets(lambda e, _nm=nm: isinstance(e, ast.Name) and e.id == _nm, fn, depth + 1)
+                if r is not None:
+                    return r
+            if isinstance(n, ast.Call) and isinstance(n.func, ast.Attribute) and dotted(n.func.value) == "self":
+                for i, arg in enumerate(n.args):
+                    if src_is(arg):
+                        h = interp.methods.get(n.func.attr) or prog.resolve_method(interp, n.func.attr)
+                        if h is not None and len(h.params) > i + 1:
+                            pn = h.params[i + 1]
+                            r = _restore_targets(lambda e, _pn=pn: isinstance(e, ast.Name) and e.id == _pn, h, depth + 1)
+                            if r is not None:
+                                return r
+                            if any(isinstance(x, ast.Attribute) and x.attr == "_fields" for x in ast.walk(h.node)) and \
+                                    any(isinstance(x, ast.Call) and dotted(x.func) == "setattr" for x in ast.walk(h.node)):
+                                return "<all fields>"
         return None
 
     def restored_fields(m, stack):
-        for n in ast.walk(m.node):
-            if isinstance(n, ast.Assign) and isinstance(n.value, ast.Call) and isinstance(n.value.func, ast.Attribute) and n.value.func.attr == "pop" \
-                    and norm(n.value.func.value) == stack and isinstance(n.targets[0], ast.Tuple):
-                return n.targets[0]
-        return None
+        def is_pop(e):
+            return isinstance(e, ast.Call) and isinstance(e.func, ast.Attribute) and e.func.attr == "pop" and norm(e.func.value) == stack
+        return _restore_targets(is_pop, m)
+
     for push, pop, stack, label in (("cmdStartScope", "cmdEndTagEndScope", "self.scopeStack", "scope"),
                                     ("pushProgram", "popProgram", "self.programStack", "program")):
         pm_, qm = interp.methods.get(push), interp.methods.get(pop)
@@ -359,7 +446,25 @@ def check(ctx, rep):
                         else:
                             out.append(norm(e))
                     return out
+                if b == "<all fields>":
+                    b = ast.Tuple(elts=list(a.elts), ctx=ast.Store())  # restored by reflection over the same field list
                 fa, fb = flat(a), flat(b)
+                if label == "program" and a.elts and not isinstance(a.elts[0], ast.Name):
+                    # (state, commandList, symbolTable) with the state given in place
+                    inner = _as_tuple(a.elts[0], pm_)
+                    if inner is not None:
+                        fa = [norm(e) for e in inner.elts] + fa[1:]
+                if label == "program" and fb and fb[0].startswith("<"):
+                    nm = fb[0][1:-1]
+                    rb = _restore_targets(lambda e, _nm=nm: isinstance(e, ast.Name) and e.id == _nm, qm)
+                    if rb == "<all fields>":
+                        fb = fa[:len(fa) - len(fb) + 1] + fb[1:]
+                    elif rb is not None:
+                        fb = [norm(e) for e in rb.elts] + fb[1:]
+                if label == "program" and fa and fa[0].startswith("<"):
+                    inner = _as_tuple(ast.Name(id=fa[0][1:-1], ctx=ast.Load()), pm_)
+                    if inner is not None:
+                        fa = [norm(e) for e in inner.elts] + fa[1:]
                 if label == "program":
                     # (vars, commandList, symbolTable): expand `vars`
                     va = next((s.value for s in ast.walk(pm_.node) if isinstance(s, ast.Assign) and any(isinstance(t, ast.Name) and t.id == "vars" for t in s.targets)), None)
